@@ -119,6 +119,7 @@ type Ops struct {
 	byKey        map[planKey]*go9p.SrvReq  // the last request seen for (conn, tag)
 	flushGates   map[planKey]chan struct{} // Flush(conn, tag) blocks until the channel is closed
 	closedGates  map[int]chan struct{}     // ConnClosed(conn id) blocks until the channel is closed
+	defPlans     map[int]*Plan            // one-shot catch-all plan per connection
 	cbGates      map[string]chan struct{}  // one-shot gates of the other callbacks, by name
 	destroyGates map[int64]chan struct{}   // FidDestroy of the fid object with that token blocks until the channel is closed
 	Dotu         bool
@@ -188,6 +189,21 @@ func (o *Ops) SetPlan(conn int, tag uint16, p *Plan) {
 	o.mu.Unlock()
 }
 
+// SetDefaultPlan sets (p != nil) or clears the plan the next request of the connection gets when nothing was
+// planned for its tag (for requests whose tag the harness cannot know in advance); it is used once.
+func (o *Ops) SetDefaultPlan(conn int, p *Plan) {
+	o.mu.Lock()
+	if o.defPlans == nil {
+		o.defPlans = map[int]*Plan{}
+	}
+	if p == nil {
+		delete(o.defPlans, conn)
+	} else {
+		o.defPlans[conn] = p
+	}
+	o.mu.Unlock()
+}
+
 // SetAuthPlan registers the plan used by AuthInit/AuthCheck for this aname.
 func (o *Ops) SetAuthPlan(aname string, p *Plan) {
 	o.mu.Lock()
@@ -201,6 +217,10 @@ func (o *Ops) takePlan(conn int, tag uint16) *Plan {
 	k := planKey{conn, tag}
 	q := o.plans[k]
 	if len(q) == 0 {
+		if d := o.defPlans[conn]; d != nil {
+			delete(o.defPlans, conn) // one-shot
+			return d
+		}
 		return &Plan{WalkN: -1, ReadN: -1}
 	}
 	p := q[0]
